@@ -257,6 +257,89 @@ def zero_guarded(e):
     return None
 
 
+OPERATORS = {"+": "add", "-": "subtract", "*": "multiply", "/": "divide",
+             "%": "modulo", "ḭ": "integer_divide"}
+
+
+def operators_call_their_functions(chk, repo, mod, EF):
+    """The arms analysed above are what the program runs: the table entry of
+    each operator pops its operands and pushes exactly <function>(operands)
+    (an inline template could route some operand kinds around the function)."""
+    from ..templates import Gen, table_keys_with_nodes
+    gen = Gen(repo)
+    elems = gen.elements()
+    lines = {k: kn.lineno for k, kn, _ in table_keys_with_nodes(repo,
+                                                                "elements")}
+    for key, fname in OPERATORS.items():
+        v = elems.get(key)
+        ok, why = False, "no such table entry"
+        if isinstance(v, tuple) and isinstance(v[0], str):
+            try:
+                tree = ast.parse(v[0])
+            except SyntaxError:
+                tree = None
+            why = "the template does not parse"
+            if tree is not None:
+                pushes = [n for n in ast.walk(tree) if isinstance(n, ast.Call)
+                          and (dotted(n.func) or "") == "stack.append"]
+                popped = []
+                for n in ast.walk(tree):
+                    if isinstance(n, ast.Assign) and isinstance(
+                            n.value, ast.Call) and (dotted(n.value.func)
+                                                    or "") == "pop":
+                        t = n.targets[0]
+                        popped = [e.id for e in (t.elts if isinstance(
+                            t, ast.Tuple) else [t]) if isinstance(e, ast.Name)]
+                why = (f"the template pushes `{ast.unparse(pushes[0].args[0])[:60]}`"
+                       if pushes and pushes[0].args else "nothing is pushed")
+                if len(pushes) == 1 and pushes[0].args:
+                    e = pushes[0].args[0]
+                    if isinstance(e, ast.Call) and isinstance(
+                            e.func, ast.Name) and e.func.id == fname:
+                        args = [a.id for a in e.args
+                                if isinstance(a, ast.Name)]
+                        ok = len(args) == 2 and len(e.args) == 2 and set(
+                            args) == set(popped) and len(popped) == 2
+                        why = (f"`{ast.unparse(e)[:60]}` does not apply "
+                               f"{fname} to the two popped operands")
+        chk.ob("C07.operator-runs-its-function", f"elements[{key!r}]", ok,
+               f"{why}: the exactness of `{fname}` decided above is not what "
+               f"`{key}` computes", EF, lines.get(key),
+               witness="355 113 / with both operands python ints",
+               sample={"operator": key, "function": fname})
+
+
+def operands_not_rebound(chk, mod, EF):
+    """Between entry and the overload table the operands stay what the caller
+    passed (or an exact function of it): `lhs, rhs = simplify(lhs), ...`
+    under some flag would feed floats to an otherwise exact arm."""
+    for name in FUNCS:
+        fn = mod.function(name)
+        params = {a.arg for a in fn.args.args if a.arg != "ctx"}
+        for n in ast.walk(fn):
+            if isinstance(n, (ast.FunctionDef, ast.Lambda)) and n is not fn:
+                continue
+            tg = []
+            if isinstance(n, ast.Assign):
+                for t in n.targets:
+                    tg += list(t.elts) if isinstance(t, ast.Tuple) else [t]
+                vals = list(n.value.elts) if isinstance(
+                    n.value, ast.Tuple) and len(n.value.elts) == len(tg) \
+                    else [n.value] * len(tg)
+            elif isinstance(n, ast.AugAssign):
+                tg, vals = [n.target], [n.value]
+            for t, v in zip(tg, vals if tg else []):
+                if isinstance(t, ast.Name) and t.id in params:
+                    ok, why = exact(v)
+                    chk.ob("C07.operands-not-rebound",
+                           f"{name}:{t.id} = {ast.unparse(v)[:40]}", ok,
+                           f"{name} replaces its operand `{t.id}` by "
+                           f"`{ast.unparse(v)[:60]}` before the number arm "
+                           f"runs: {why}", EF, n.lineno,
+                           witness="flag ḋ: 1 3 / 1 6 / + gives the float "
+                                   "0.5")
+
+
 def check(chk, repo, tier):
     chk.trusted_base += ["CPython ast"]
     global MODULE
@@ -290,6 +373,9 @@ def check(chk, repo, tier):
                witness="-718218 9326 / gives -154024876688827/2000000000000"
                if name == "divide" else None,
                sample={"function": name, "arm": ast.unparse(body)[:80]})
+
+    operators_call_their_functions(chk, repo, mod, EF)
+    operands_not_rebound(chk, mod, EF)
 
     # vyxalify -------------------------------------------------------------------
     helpers = repo.mod("helpers")
